@@ -17,7 +17,7 @@ RULE = ('findroot: 12 scalar problems (simple, repeated, far, complex, no root, 
         '(mdnewton, incl. overdetermined and a Jacobian) likewise.  Raising is accepted (counted by exception type).  mnewton on (x-r)^m*g(x), m=1..5, '
         'r in {1,-3/2,1/3}, g in {1, x+5}, also (x-1)^m multiplied out (evaluation noise near the root), two nearby starts, numerical and user-supplied derivatives: must return with |x-r| < 2^(4-p/m).  polyroots: ALL monic integer '
         'polynomials of degree 1..3 with coefficients in -2..2 (and degree 4 with -1..1), polynomials from ALL multisets of size 1..4 over the root alphabet '
-        '{0,1,-2,1/2,3i,-3i,-3+3i,-3-3i,1+i,1-i}, x^n-1 for n to 20, Wilkinson-type to degree 12: exactly deg roots; |p(r)/p\'(r)| <= 64*max(err,ulp) in exact '
+        '{0,1,-2,1/2,3i,-3i,-3+3i,-3-3i,1+i,1-i}, x^n-1 for n to 20, Wilkinson-type to degree 12, far-out pairs 2^(p+5)+-i: exactly deg roots; |p(r)/p\'(r)| <= 64*max(err,ulp) in exact '
         'arithmetic for simple roots; real-coefficient input: real roots first, then adjacent conjugate pairs.  multiplicity() of (x-r)^m g(x), m=1..6.  '
         'non-trivial = every returned value checked; distinct by construction')
 ASSUMPTIONS = ['non-polynomial test functions (sin, exp) are re-evaluated by the library at 4x precision']
@@ -462,6 +462,10 @@ def t_polyspecial(task):
         # far-out conjugate pair with tiny imaginary part relative to the real part
         check_poly(acc, mp, '(x-2^20)^2+1', poly_from_roots([GQ(2 ** 20, 1), GQ(2 ** 20, -1)]), p, True, True, maxsteps=200, extraprec=2 * p)
         check_poly(acc, mp, '(x-2^(p-10))^2+2^-8', poly_from_roots([GQ(2 ** (p - 10), Fraction(1, 16)), GQ(2 ** (p - 10), Fraction(-1, 16))]), p, True, True, maxsteps=400, extraprec=4 * p)
+        # conjugate pair whose imaginary part is below eps*|re| but far above eps: must stay a pair
+        for sh in (5, 20):
+            check_poly(acc, mp, '(x-2^(p+%d))^2+1' % sh, poly_from_roots([GQ(2 ** (p + sh), 1), GQ(2 ** (p + sh), -1)]), p, True, True, maxsteps=400, extraprec=4 * p + 100)
+        check_poly(acc, mp, '(x-2^(p+5))^2+1 times (x-3)', poly_from_roots([GQ(2 ** (p + 5), 1), GQ(2 ** (p + 5), -1), GQ(3)]), p, True, True, maxsteps=400, extraprec=4 * p + 100)
         # leading coefficient != 1 and complex coefficients
         check_poly(acc, mp, '3x^2-7x+2', [GQ(3), GQ(-7), GQ(2)], p, True, True)
         check_poly(acc, mp, 'ix^2+(2-i)x-4', [GQ(0, 1), GQ(2, -1), GQ(-4)], p, False, True)
